@@ -424,6 +424,7 @@ def gen_tour(r, nblocks=None, funcproc=False, huge=0.0):
         data += [('label', 'D%d' % i), ('data', ids[i])]
     if dpos:
         items += data
+    repeats = {}
     for bi in src_order:
         k = order.index(bi)
         kind = 'label'
@@ -436,6 +437,13 @@ def gen_tour(r, nblocks=None, funcproc=False, huge=0.0):
                ('imm', 'LDAC', 1), ('opr', 'SVC')]
         if r.random() < 0.6:
             blk.insert(1, ('pad', 0))
+        if r.random() < 0.2:
+            # the same write requested again by the very next instruction (SVC leaves the registers and the argument slots alone)
+            extra = r.randint(1, 2)
+            at = blk.index(('opr', 'SVC'))
+            for _ in range(extra):
+                blk.insert(at, ('opr', 'SVC'))
+            repeats[bi] = 1 + extra
         if k == n - 1:
             blk += [('imm', 'LDAC', 0), ('imm', 'LDBM', 1), ('imm', 'STAI', 2), ('imm', 'LDAC', 0), ('opr', 'SVC')]
         else:
@@ -458,7 +466,7 @@ def gen_tour(r, nblocks=None, funcproc=False, huge=0.0):
         items += blk
     if not dpos:
         items += [('pad', r.randint(0, 3))] + data
-    expected = bytes(ids[b] for b in order)
+    expected = b''.join(bytes([ids[b]]) * repeats.get(b, 1) for b in order)
     return items, expected
 
 
